@@ -27,6 +27,32 @@ type scripted struct {
 	mu             sync.Mutex
 	caps           map[string]*plugintypes.NodeDeployCapacity
 	nilMap         bool // answer with a nil capacity map (as a JSON plugin answering `null` would)
+	failSet        bool // SetNodeResourceUsage fails (another plugin failing in cobalt's commit)
+}
+
+var errScripted = errors.New("scripted plugin failure")
+
+func (s *scripted) setFail(v bool) {
+	s.mu.Lock()
+	defer s.mu.Unlock()
+	s.failSet = v
+}
+
+func (s *scripted) setCap(node string, c *plugintypes.NodeDeployCapacity) {
+	s.mu.Lock()
+	defer s.mu.Unlock()
+	if s.caps == nil {
+		s.caps = map[string]*plugintypes.NodeDeployCapacity{}
+	}
+	if c == nil {
+		delete(s.caps, node)
+	} else {
+		s.caps[node] = c
+	}
+}
+
+func (s *scripted) CalculateRealloc(context.Context, string, plugintypes.WorkloadResource, plugintypes.WorkloadResourceRequest) (*plugintypes.CalculateReallocResponse, error) {
+	return &plugintypes.CalculateReallocResponse{}, nil
 }
 
 func (s *scripted) Name() string { return s.name }
@@ -75,16 +101,23 @@ func (s *scripted) CalculateDeploy(_ context.Context, nodename string, deployCou
 }
 
 func (s *scripted) SetNodeResourceUsage(context.Context, string, plugintypes.NodeResource, plugintypes.NodeResourceRequest, []plugintypes.WorkloadResource, bool, bool) (*plugintypes.SetNodeResourceUsageResponse, error) {
+	s.mu.Lock()
+	defer s.mu.Unlock()
+	if s.failSet {
+		return nil, errScripted
+	}
 	return &plugintypes.SetNodeResourceUsageResponse{}, nil
 }
 
 // ---------------------------------------------------------------------------- fixture
 
 type fixture struct {
-	ctx context.Context
-	cm  *cpumem.Plugin
-	mgr *cobalt.Manager // cpumem only
-	cfg coretypes.Config
+	ctx  context.Context
+	cm   *cpumem.Plugin
+	mgr  *cobalt.Manager // cpumem only
+	x0   *scripted       // second plugin of mgr2: accepts everything, fails its SetNodeResourceUsage on demand
+	mgr2 *cobalt.Manager // cpumem + x0
+	cfg  coretypes.Config
 }
 
 func newFixture(t *testing.T) *fixture {
@@ -100,7 +133,9 @@ func newFixture(t *testing.T) *fixture {
 	}
 	mgr, _ := cobalt.New(cfg)
 	mgr.AddPlugins(cm)
-	return &fixture{ctx: ctx, cm: cm, mgr: mgr, cfg: cfg}
+	f := &fixture{ctx: ctx, cm: cm, mgr: mgr, cfg: cfg, x0: &scripted{name: "x0"}}
+	f.mgr2 = f.managerWith(f.x0)
+	return f
 }
 
 // manager over the shared cpumem plugin plus scripted plugins
@@ -123,6 +158,8 @@ func errClass(err error) string {
 	switch {
 	case err == nil:
 		return ""
+	case errors.Is(err, errScripted):
+		return "scripted-failure"
 	case errors.Is(err, coretypes.ErrInsufficientCapacity):
 		return "insufficient-capacity"
 	case errors.Is(err, coretypes.ErrInsufficientResource):
